@@ -30,10 +30,12 @@ tvars == <<l, rn, skip, drift, nops, cov, pc, loc, fs, clock, nino, aux, last>>
 EndsWith(str, t) == Len(str) >= Len(t) /\ SubSeq(str, Len(str) - Len(t) + 1, Len(str)) = t
 \* (stacked writes are followed when the value is staged in the driver's SRC directory, as the model assumes)
 StagedInSrc(e) == e.api \in {"set", "put", "set_tf", "put_tf"} /\ Has(e, "srcdir") /\ EndsWith(e.srcdir, "/SRC")
+\* (ensure / get_or_update are followed when populate writes the value and no consistency checker is installed)
+PlainEnsure(e) == e.api \in {"ensure", "gou"} /\ rn.checker = "none" /\ (Has(e, "populate") => e.populate = "value") /\ ~Has(e, "popchop")
 \* (hk: the kind of handle the operation goes through; a participant that plants a read-only level through a plain handle is not followed)
 \* (runs marked "unmodelled" use an environment the model has no action for -- short transfers -- and are not followed)
 Modeled(e) == ~e.world /\ ~rn.unmodelled /\ (Has(e, "hk") => e.hk = FrontKind) /\
-              (IF FrontKind = "stack" THEN (e.api \in {"get", "touch", "ensure"} \/ StagedInSrc(e)) /\ ~rn.wsharded
+              (IF FrontKind = "stack" THEN (e.api \in {"get", "touch"} \/ PlainEnsure(e) \/ StagedInSrc(e)) /\ ~rn.wsharded
                             ELSE e.api \in {"get", "touch", "set", "put"})
 \* an injected failure inside std::io::copy's private probing (fstat of source / destination): the fallback it takes is the
 \* standard library's business, the rest of that operation is not followed
@@ -77,15 +79,20 @@ AltsOf(lbl, lo) ==
 Alts(p) == UNION {AltsOf(pc[p], lo) : lo \in BaseAlts(p)}
 
 TInit ==
-    /\ l = 1 /\ rn = [job |-> "", run |-> 0, wsharded |-> FALSE, unmodelled |-> FALSE] /\ skip = <<>> /\ drift = <<>> /\ nops = 0 /\ cov = {}
+    /\ l = 1 /\ rn = [job |-> "", run |-> 0, wsharded |-> FALSE, unmodelled |-> FALSE, checker |-> "none"] /\ skip = <<>> /\ drift = <<>> /\ nops = 0 /\ cov = {}
     /\ pc = <<>> /\ loc = <<>>
     /\ fs = EmptyFS /\ clock = 0 /\ nino = 0 /\ aux = <<>> /\ last = <<>>
 
 Drifted == drift # <<>>
 
+\* the judge (and populate, of the file it replaces) may read the hit it is shown: an implementation step without a
+\* counterpart in the model (what the callbacks read is the application's business)
+Inspects(e, p) == /\ loc[p].op.api = "gou" /\ e.ph = "cb" /\ e.call \in {"read", "lseek", "stat"}
+                  /\ Has(e, "via") /\ e.via = "fd" /\ Has(e, "ino") /\ loc[p].hit # "" /\ e.ino = loc[p].hit
 SysEvent(e) ==
     LET p == e.p IN
     IF p \notin DOMAIN pc \/ Get(skip, p, TRUE) THEN UNCHANGED <<pc, loc, drift, nops>>
+    ELSE IF Inspects(e, p) THEN UNCHANGED <<pc, loc, drift, nops>>
     ELSE IF pc[p] \in {"idle", "ret"} THEN
         \* only the application's own inspection of a returned handle may happen here
         IF e.ph = "app" THEN UNCHANGED <<pc, loc, drift, nops>>
@@ -116,13 +123,14 @@ CallEvent(e) ==
     LET p == e.p IN
     IF Modeled(e) /\ rn.front = FrontKind THEN
         /\ skip' = Put(skip, p, FALSE)
-        /\ pc' = Put(pc, p, IF e.api \in {"get", "ensure"} THEN "g1" ELSE IF e.api = "touch" THEN "t1"
+        /\ pc' = Put(pc, p, IF e.api \in {"get", "ensure", "gou"} THEN "g1" ELSE IF e.api = "touch" THEN "t1"
                              ELSE IF FrontKind = "stack" THEN "a3" ELSE IF FrontKind = "plain" THEN "a1" ELSE "s0")
         /\ loc' = Put(loc, p, [IdleLoc EXCEPT !.opi = e.opi, !.cap = rn.cap, !.bound = (FrontKind # "sharded"), !.h1 = Root,
                                  !.h2 = IF FrontKind = "stack" /\ rn.hasro THEN RORoot ELSE Root, !.est = [bd \in BaseDirs |-> 0],
                                  !.td = IF FrontKind = "stack" /\ e.api \in {"set", "put", "set_tf", "put_tf"} THEN SrcDir ELSE TDof(Root),
                                  !.op = [api |-> e.api, key |-> e.key, val |-> IF Has(e, "val") THEN e.val ELSE "",
-                                         chunks |-> IF Has(e, "chunks") THEN e.chunks ELSE 1]])
+                                         chunks |-> IF Has(e, "chunks") THEN e.chunks ELSE 1,
+                                         judge |-> IF Has(e, "judge") THEN e.judge ELSE "accept"]])
     ELSE /\ skip' = Put(skip, p, TRUE) /\ UNCHANGED <<pc, loc>>
 
 \* the (label, call, result) edge of the model's control flow that a recorded call took
@@ -143,6 +151,7 @@ TNext ==
             /\ rn' = [job |-> e.job, run |-> e.run,
                        front |-> IF Has(e, "cfg") /\ Has(e.cfg, "front") THEN e.cfg.front ELSE "?",
                        hasro |-> Has(e, "cfg") /\ Has(e.cfg, "roots") /\ \E i \in 1..Len(e.cfg.roots) : e.cfg.roots[i].role = "ro",
+                       checker |-> IF Has(e, "cfg") /\ Has(e.cfg, "checker") THEN e.cfg.checker ELSE "none",
                        unmodelled |-> Has(e, "cfg") /\ Has(e.cfg, "unmodelled") /\ e.cfg.unmodelled,
                        wsharded |-> Has(e, "cfg") /\ Has(e.cfg, "roots") /\ \E i \in 1..Len(e.cfg.roots) : e.cfg.roots[i].role = "w" /\ e.cfg.roots[i].kind = "sharded",
                        cap |-> IF Has(e, "cfg") /\ Has(e.cfg, "shardcap") /\ FrontKind = "sharded" THEN e.cfg.shardcap
